@@ -334,6 +334,9 @@ def outcome_of(fn) -> tuple[dict, object]:
         model = fn()
     except (Exception, SimInterrupt) as exc:  # noqa: BLE001
         return {"exception": type(exc).__name__, "message": str(exc)[:160]}, None
+    finally:
+        # an armed interrupt belongs to the call, not to the harness' own reading of the result
+        sys.settrace(None)
     return model_digests(model), model
 
 
